@@ -25,12 +25,24 @@ def translate(repo):
     items.append(typed("close_swallows_eof", "bool", coq_bool(len(eof) == 1 and [u(x) for x in eof[0].body] == ["pass"]
                                                               and t.handlers.index(eof[0]) == 0)))
     items.append(shape("close.other_handlers", "\n".join(u(h) for h in t.handlers if h not in eof)))
-    # ---- _cleanup()
-    cu = [u(x) for x in strip_doc(find_func(cls, "_cleanup").body)]
-    want_prefix = ["if self._closed and (not _anyway):\n    return", "self._closed = True", "self._channel.close()", "self._local_root.on_disconnect(self)"]
-    ok = cu[:4] == want_prefix and "self._local_root = None" in cu and cu.index("self._local_root = None") > 3 \
-        and "self._local_objects.clear()" in cu and "self._request_callbacks.clear()" in cu and "self._proxy_cache.clear()" in cu
+    # ---- _cleanup(): guard, flag, channel, hook, then the clears - either straight after the hook or in a `finally` around it
+    cf = strip_doc(find_func(cls, "_cleanup").body)
+    cu = [u(x) for x in cf]
+    want_prefix = ["if self._closed and (not _anyway):\n    return", "self._closed = True", "self._channel.close()"]
+    HOOK = "self._local_root.on_disconnect(self)"
+    CLEARS = ("self._local_root = None", "self._local_objects.clear()", "self._request_callbacks.clear()", "self._proxy_cache.clear()")
+    ok, in_finally = False, False
+    if cu[:3] == want_prefix and len(cf) > 3:
+        if cu[3] == HOOK:
+            rest = cu[4:]
+            ok = all(c in rest for c in CLEARS)
+        elif isinstance(cf[3], ast.Try) and [u(x) for x in cf[3].body] == [HOOK] and not cf[3].handlers and not cf[3].orelse and len(cf) == 4:
+            fin = [u(x) for x in cf[3].finalbody]
+            ok = in_finally = all(c in fin for c in CLEARS)
+    if sum(x.count("on_disconnect") for x in cu) != 1:
+        ok = False
     items.append(typed("cleanup_hook_once_guard", "bool", coq_bool(ok)))
+    items.append(typed("cleanup_clears_in_finally", "bool", coq_bool(ok and in_finally)))
     items.append(typed("cleanup_default_anyway", "bool", coq_bool(u(find_func(cls, "_cleanup").args).endswith("_anyway=True"))))
     items.append(shape("_cleanup", func_shape(find_func(cls, "_cleanup"))))
     items.append(typed("handle_close_is_cleanup", "bool", coq_bool([u(x) for x in strip_doc(find_func(cls, "_handle_close").body)] == ["self._cleanup()"])))
